@@ -129,3 +129,102 @@ Proof.
 Qed.
 Print Assumptions C06_pre_d3fd06e_same_revision_diverges.
 
+
+(* ======== deepening round ======== *)
+From SG Require Import C06.VVF C06.VVG C06.VVGInv C06.VVGConv C06.Shapes.
+
+(* C. The revision-tree shapes as decidable predicates on histories, each NECESSARY (Shapes.v): a diverging history
+      that has this shape and neither of the other two.  The third is new: a custom resolver that answers null is
+      "treated as a delete" by the resolver wrapper (Body{_deleted:true}), but resolveDocMerge stores that body as a
+      LIVE revision; no receiver accepts it (reserved property), so it never replicates.  Replayed on the real
+      replicator under both protocols (harness scenarios js-null; signatures rt: / vv:diverged:null-merge-stored-live). *)
+Theorem C06_branched_delete_necessary :
+  shapes (w_delete ++ catch_up default_policy 0) = (true, false, false) /\ diverged default_policy w_delete = true.
+Proof. exact branched_delete_necessary. Qed.
+Theorem C06_branched_resurrect_necessary :
+  shapes (w_resurrect ++ catch_up default_policy 0) = (false, true, false) /\ diverged default_policy w_resurrect = true.
+Proof. exact branched_resurrect_necessary. Qed.
+Theorem C06_unsendable_write_necessary :
+  shapes (w_null ++ catch_up null_policy 0) = (false, false, true) /\ diverged null_policy w_null = true.
+Proof. exact unsendable_write_necessary. Qed.
+
+(* D. Beyond the three recorded final states (deleted / live, live / deleted, two different tombstones): BOTH peers
+      live with different revisions.  The lost delete of shape 1 followed by a resurrection: the PUT extends the OLD
+      tombstone (the winner among the active side's tombstones), the passive side never saw that branch and refuses
+      it (409).  Replayed on the real replicator (corpus scenario resurrect-after-lost-delete, signature
+      rt:diverged:active=live,passive=live). *)
+Theorem C06_resurrection_on_dead_branch_refuted :
+  shapes (w_live_live ++ catch_up default_policy 0) = (true, true, false) /\
+  (let s := run mkdig_struct (run mkdig_struct sys0 w_live_live) (catch_up default_policy 0) in
+   cur_del (fst (s 0)) = false /\ cur_del (snd (s 0)) = false /\
+   cur_body (fst (s 0)) = Some 6 /\ cur_body (snd (s 0)) = Some 4 /\
+   step_status mkdig_struct s (Push 0) = TConflict).
+Proof. exact live_live_divergence. Qed.
+
+(* E. Version-vector protocol, DEFAULT resolver: the revision-tree id a resolution is about to write already exists on
+      the local branch (VVF.v).  The same document created with the same first body on both sides (same revision-tree
+      id, different versions), edited on the active side before the first replication.
+      E1. the passive side's write is the later one: "remote wins" tombstones the local revision and has nothing to add
+          (the pulled revision is an ancestor): the active side ends DELETED carrying the passive side's current version,
+          the passive side stays live with that version, and every later transfer is answered "known".  d3fd06e repaired
+          only the case "the pulled revision IS the local revision".  C06_lww_converges needs the premise clash_free. *)
+Definition ops_ancestor_remote : list vop := [VEdit VA 0 3 10; VEdit VA 0 4 20; VEdit VB 0 3 30].
+
+Theorem C06_remote_wins_ancestor_diverges :
+  clash_free (ops_ancestor_remote ++ [VPull 0; VPush 0]) = false /\
+  let s := frun (frun vsys0 ops_ancestor_remote) [VPull 0; VPush 0] in
+  vobs (vdoc_of s VA 0) = Some ((2, 30), 0, true) /\ vobs (vdoc_of s VB 0) = Some ((2, 30), 3, false) /\
+  fstatus_of s (VPull 0) = VKnown /\ fstatus_of s (VPush 0) = VKnown.
+Proof. vm_compute. repeat split; reflexivity. Qed.
+
+Definition flww_converges_full_statement : Prop :=
+  forall ops d, let s := frun (frun vsys0 ops) [VPull d; VPush d] in vobs (vdoc_of s VA d) = vobs (vdoc_of s VB d).
+
+Theorem C06_lww_converges_full_statement_refuted : ~ flww_converges_full_statement.
+Proof. intros H. specialize (H ops_ancestor_remote 0). vm_compute in H. discriminate. Qed.
+Print Assumptions C06_lww_converges_full_statement_refuted.
+
+(*    E2. the active side's write is the later one: "local wins" rewrites the local body as a child of the pulled
+          revision -- which IS the local revision -- and tombstones "the old" local revision: the WINNER of the conflict
+          is deleted on the active side, keeps its current version, and the push deletes it on the passive side too.
+          The peers agree -- on a tombstone nobody wrote.  C06_lww_winner_adopted needs the premise clash_free. *)
+Definition ops_rewritten_exists : list vop := [VEdit VB 0 3 10; VEdit VA 0 3 20; VEdit VA 0 4 30].
+
+Theorem C06_local_wins_rewritten_revision_exists :
+  clash_free (ops_rewritten_exists ++ [VPull 0; VPush 0]) = false /\
+  let s0 := frun vsys0 ops_rewritten_exists in
+  vobs (vdoc_of s0 VA 0) = Some ((1, 30), 4, false) /\ vobs (vdoc_of s0 VB 0) = Some ((2, 10), 3, false) /\
+  fstatus_of s0 (VPull 0) = VLocalWins /\
+  let s := frun s0 [VPull 0; VPush 0] in
+  vobs (vdoc_of s VA 0) = Some ((1, 30), 0, true) /\ vobs (vdoc_of s VB 0) = Some ((1, 30), 0, true).
+Proof. vm_compute. repeat split; reflexivity. Qed.
+
+(* F. Version-vector protocol, custom resolvers (VVG.v).
+      F1. the stale merge version: a merge on the active side records the passive side's version m as a merge version;
+          the passive side writes again (v > m) before it receives the merge; the next conflict is resolved "local
+          wins": UpdateHistory answers versionInMVOlder for the incoming current version and IGNORES it (the same line
+          as C10's same-merge-accept-drops-local-version), so the resolved vector does not record (passive, v): the
+          push is refused with 409 for ever, every further pull re-runs the resolution, and the second one writes a
+          revision that already exists (E2) -- the active side's document becomes a tombstone. *)
+Definition ops_stale_mv : list gop :=
+  [GEdit 1 0 2 10; GEdit 2 0 3 20; gpull 1 (rs_fun (RSMerge 9)) 0 30; GEdit 2 0 4 40; gpull 1 (rs_fun RSLocal) 0 0; gpush 1 0].
+
+Theorem C06_stale_merge_version_diverges :
+  greg_from gsys0 ops_stale_mv = false /\
+  let s := grun gsys0 ops_stale_mv in
+  vobs (gdoc s 1 0) = Some ((1, 30), 9, false) /\ vobs (gdoc s 2 0) = Some ((2, 40), 4, false) /\
+  gstatus_of s (gpush 1 0) = GConflict /\
+  (* the second local-wins pull deletes the document on the active side *)
+  gstatus_of s (gpull 1 (rs_fun RSLocal) 0 0) = GLocalWins /\
+  vobs (gdoc (gstep s (gpull 1 (rs_fun RSLocal) 0 0)) 1 0) = Some ((1, 30), 0, true).
+Proof. vm_compute. repeat split; reflexivity. Qed.
+
+(*    F2. a resolver that answers null *)
+Definition ops_null_vv : list gop := [GEdit 1 0 2 10; GEdit 2 0 3 20; gpull 1 (rs_fun RSNil) 0 30; gpush 1 0].
+
+Theorem C06_null_merge_diverges_vv :
+  greg_from gsys0 (ops_null_vv ++ [gpull 1 (rs_fun RSNil) 0 0; gpush 1 0]) = false /\
+  let s := grun gsys0 ops_null_vv in
+  vobs (gdoc s 1 0) = Some ((1, 30), 1, false) /\ vobs (gdoc s 2 0) = Some ((2, 20), 3, false) /\
+  gstatus_of s (gpush 1 0) = GError /\ gstatus_of s (gpull 1 (rs_fun RSNil) 0 0) = GKnown.
+Proof. vm_compute. repeat split; reflexivity. Qed.
